@@ -15,7 +15,8 @@
 (* Loose (DESIGN C18): with separate p_min / p_max an inverted pair may be     *)
 (* refused when the limit is written or only when the next value is written -  *)
 (* both are allowed, but while the pair is inverted no value is accepted.      *)
-(* A p_limits tuple is ONE value: an inverted tuple is refused as such.        *)
+(* A p_limits tuple is ONE value: a request to set an inverted tuple is        *)
+(* refused as such (a driver assignment is a report and cannot be refused).    *)
 (* Besides the property, the spec demands that a value inside limits and       *)
 (* datatype (and not refused by a user hook) IS accepted - otherwise           *)
 (* "accepted" would have no meaning; violations of that direction are reported *)
@@ -53,15 +54,19 @@ SetOne(newlo, newhi) ==
 SetMin(v) == kind \in {"minmax", "min"} /\ Lo <= v /\ v <= Hi /\ SetOne(v, hi)
 SetMax(v) == kind \in {"minmax", "max"} /\ Lo <= v /\ v <= Hi /\ SetOne(lo, v)
 
-SetLimits(a, b) ==        \* change p_limits [a, b]: one value
+SetLimits(a, b, written) ==   \* p_limits := <<a, b>>, one value
+    \* written = TRUE : change p_limits [a, b] / write_p_limits((a, b)) - a request that can be refused
+    \* written = FALSE: driver assignment self.p_limits = (a, b) - a report, it cannot be refused;
+    \*                  an inverted report may be stored (then no value of p is accepted) or dropped
     /\ kind = "limits" /\ Lo <= a /\ a <= Hi /\ Lo <= b /\ b <= Hi
-    /\ IF a <= b THEN lo' = a /\ hi' = b /\ last' = "ok"
-                 ELSE UNCHANGED <<lo, hi>> /\ last' = "refused"
+    /\ \/ a <= b /\ lo' = a /\ hi' = b /\ last' = "ok"
+       \/ a > b /\ UNCHANGED <<lo, hi>> /\ last' = "refused"
+       \/ a > b /\ ~written /\ lo' = a /\ hi' = b /\ last' = "ok"
     /\ UNCHANGED <<kind, forb, val>>
 
 LNext == \/ \E v \in PVals : WriteP(v)
          \/ \E v \in LVals : SetMin(v) \/ SetMax(v)
-         \/ \E a \in LVals, b \in LVals : SetLimits(a, b)
+         \/ \E a \in LVals, b \in LVals, w \in BOOLEAN : SetLimits(a, b, w)
 LSpec == LInit /\ [][LNext]_lvars
 
 (* ---- properties ---- *)
@@ -70,8 +75,11 @@ TypeOK == lo \in Lo .. Hi /\ hi \in Lo .. Hi /\ val \in Lo .. Hi /\ last \in {"o
 AcceptedInside == [][\A v \in PVals : (WriteP(v) /\ last' = "ok") =>
                        (lo <= v /\ v <= hi /\ lo <= hi /\ val' = v)]_lvars
 RefusedKeeps == [][\A v \in PVals : (WriteP(v) /\ last' = "refused") => val' = val]_lvars
-(* a limits tuple is never stored inverted *)
-TupleNeverInverted == kind = "limits" => lo <= hi
+(* a request to set an inverted limits tuple is refused and changes nothing *)
+InvertedTupleRefused == [][\A a \in LVals, b \in LVals : (SetLimits(a, b, TRUE) /\ a > b) =>
+                             (last' = "refused" /\ lo' = lo /\ hi' = hi)]_lvars
+(* while the pair is inverted nothing is accepted *)
+NothingUnderInverted == [][\A v \in PVals : (WriteP(v) /\ lo > hi) => (last' = "refused" /\ val' = val)]_lvars
 (* limit parameters only change by operations on them *)
 ValueWritesKeepLimits == [][\A v \in PVals : WriteP(v) => (lo' = lo /\ hi' = hi)]_lvars
 =============================================================================
